@@ -102,6 +102,8 @@ def main():
             res["suite"] = r.stdout.strip().splitlines()[:8]
             print(f"suite on patched tree ({time.time() - t0:.0f}s):", r.stdout.strip()[:1500])
         for cid in ids:
+            if cid == "-":
+                continue
             t0 = time.time()
             env = dict(os.environ, VERIF_REPO=wt)
             r = sh([os.path.join(V, "check"), cid, "--tier", tier, "--no-evidence"], env=env)
